@@ -45,11 +45,14 @@ func runEngineA(p *Prog, o *obls) {
 	byFn := map[*ssa.Function]*PktClosure{}
 	for _, c := range closures {
 		byFn[c.Fn] = c
+		if c.Wrapper != nil {
+			byFn[c.Wrapper] = c
+		}
 	}
 	a0BindResults(p, o, byFn)
 	for _, c := range closures {
 		key := funcKey(c.Fn)
-		_, buffering := bufferingInterceptors[closureOwnerType(c.Fn)]
+		_, buffering := bufferingInterceptors[closureOwnerType(c.ownerFn())]
 		if c.Kind.isWriter() {
 			if !buffering {
 				a1Writer(p, o, c, key)
@@ -82,7 +85,7 @@ func packetParams(c *PktClosure) []*ssa.Parameter {
 // nextCalls returns the invoke instructions on the closure's downstream (Write for writers, Read for readers).
 func nextCalls(p *Prog, c *PktClosure) []*ssa.Call {
 	var out []*ssa.Call
-	if c.Next == nil {
+	if !c.hasNext() {
 		return nil
 	}
 	want := "Write"
@@ -205,7 +208,7 @@ func directControlConds(fn *ssa.Function, b *ssa.BasicBlock) []ssa.Value {
 // that is not selected by packet contents.
 func a1Writer(p *Prog, o *obls, c *PktClosure, key string) {
 	pos := p.Pos(c.Fn.Pos())
-	if c.Next == nil {
+	if !c.hasNext() {
 		o.bad("A1", key, pos, "writer closure does not capture the downstream writer: every packet is dropped or diverted")
 		return
 	}
@@ -571,7 +574,7 @@ func splitReturnOK(p *Prog, c *PktClosure, ret *ssa.Return, identity map[ssa.Ins
 // of the read's error test; a failed read returns that error; a successful return reports the read's length.
 func a2Reader(p *Prog, o *obls, c *PktClosure, key string) {
 	pos := p.Pos(c.Fn.Pos())
-	if c.Next == nil {
+	if !c.hasNext() {
 		o.bad("A2", key, pos, "reader closure does not capture the wrapped reader")
 		return
 	}
@@ -1001,7 +1004,7 @@ func twccExtensionCall(p *Prog, call ssa.CallInstruction) bool {
 // a4ReadBuffer: after n, _, err := next.Read(B, a) the buffer B is used as data only as B[..:n].
 func a4ReadBuffer(p *Prog, o *obls, c *PktClosure, key string) {
 	pos := p.Pos(c.Fn.Pos())
-	if c.Next == nil {
+	if !c.hasNext() {
 		return
 	}
 	calls := nextCalls(p, c)
@@ -1163,7 +1166,7 @@ func classifyReturns(p *Prog, fn *ssa.Function, par *ssa.Parameter, byFn map[*ss
 		case *ssa.MakeClosure:
 			if c := byFn[x.Fn.(*ssa.Function)]; c != nil {
 				kinds["closure"]++
-				if c.Next != par {
+				if c.nextSource() != par {
 					*problems = append(*problems, fmt.Sprintf("the closure returned at %s does not wrap this method's argument", p.instrPos(ret)))
 				}
 			} else {
